@@ -126,20 +126,20 @@ var c03 = Register("C03", "C03.quorem", func(a c03Args) *Violation {
 })
 
 func genQuoRemPair(t *rapid.T) (D, D) {
-	switch rapid.IntRange(0, 9).Draw(t, "pairKind") {
+	switch ir(t, 0, 9, "pairKind") {
 	case 0:
 		return genFinite(t), genFiniteNZ(t)
 	case 1, 2:
 		// small gaps: every scaling arm
 		y := genFiniteNZ(t)
 		ny := y.Num()
-		g := rapid.IntRange(-40, 60).Draw(t, "gap")
+		g := ir(t, -40, 60, "gap")
 		return DFin(genSign(t), genCoef(t), clampExp(ny.Exp+g)), y
 	case 3:
 		// huge quotients
 		y := genFiniteNZ(t)
 		ny := y.Num()
-		g := rapid.IntRange(60, 12287).Draw(t, "gap")
+		g := ir(t, 60, 12287, "gap")
 		ex := ny.Exp + g
 		if ex > ref.Emax {
 			ex = ref.Emax
@@ -152,16 +152,16 @@ func genQuoRemPair(t *rapid.T) (D, D) {
 		return DFin(genSign(t), c, ex), y
 	case 4, 5:
 		// x = k*y + delta units (exact division and its neighbours)
-		dy := rapid.IntRange(1, 18).Draw(t, "dy")
+		dy := ir(t, 1, 18, "dy")
 		cy := genDigits(t, dy)
-		k := genDigits(t, rapid.IntRange(1, 34-dy+1).Draw(t, "dk"))
+		k := genDigits(t, ir(t, 1, 34-dy+1, "dk"))
 		cx := new(big.Int).Mul(k, cy)
-		cx.Add(cx, bi(int64(rapid.IntRange(-2, 2).Draw(t, "delta"))))
+		cx.Add(cx, bi(int64(ir(t, -2, 2, "delta"))))
 		cx = capCoef(cx)
 		ey := genExp(t)
-		g := rapid.IntRange(0, 50).Draw(t, "gap")
-		if rapid.IntRange(0, 5).Draw(t, "bigGap") == 0 {
-			g = rapid.IntRange(50, 6000).Draw(t, "gapBig")
+		g := ir(t, 0, 50, "gap")
+		if ir(t, 0, 5, "bigGap") == 0 {
+			g = ir(t, 50, 6000, "gapBig")
 		}
 		ex := ey + g
 		if ex > ref.Emax {
@@ -172,7 +172,7 @@ func genQuoRemPair(t *rapid.T) (D, D) {
 		// same value in different cohorts, +/- a unit: q in {0, 1}
 		y := genFiniteNZ(t)
 		xm := genCohortMember(t, y).Num()
-		c := new(big.Int).Add(xm.Coef, bi(int64(rapid.IntRange(-1, 1).Draw(t, "du"))))
+		c := new(big.Int).Add(xm.Coef, bi(int64(ir(t, -1, 1, "du"))))
 		if c.Sign() < 0 || c.Cmp(ref.Cmax) > 0 {
 			c = xm.Coef
 		}
@@ -180,29 +180,29 @@ func genQuoRemPair(t *rapid.T) (D, D) {
 	case 7:
 		// special classes the statement lists
 		var x, y D
-		switch rapid.IntRange(0, 4).Draw(t, "sp") {
+		switch ir(t, 0, 4, "sp") {
 		case 0:
-			x, y = genFinite(t), D{0x7800_0000_0000_0000 | uint64(rapid.IntRange(0, 1).Draw(t, "s"))<<63, 0}
+			x, y = genFinite(t), D{0x7800_0000_0000_0000 | uint64(ir(t, 0, 1, "s"))<<63, 0}
 		case 1:
 			x, y = genFinite(t), genZero(t)
 		case 2:
 			x, y = genZero(t), genZero(t)
 		case 3:
-			x, y = D{0x7800_0000_0000_0000 | uint64(rapid.IntRange(0, 1).Draw(t, "s"))<<63, 0}, genFinite(t)
+			x, y = D{0x7800_0000_0000_0000 | uint64(ir(t, 0, 1, "s"))<<63, 0}, genFinite(t)
 		default:
-			x = D{0x7800_0000_0000_0000 | uint64(rapid.IntRange(0, 1).Draw(t, "s"))<<63, rapid.Uint64().Draw(t, "garb")}
-			y = D{0x7800_0000_0000_0000 | uint64(rapid.IntRange(0, 1).Draw(t, "s2"))<<63, 0}
+			x = D{0x7800_0000_0000_0000 | uint64(ir(t, 0, 1, "s"))<<63, u64(t, "garb")}
+			y = D{0x7800_0000_0000_0000 | uint64(ir(t, 0, 1, "s2"))<<63, 0}
 		}
 		return x, y
 	case 8:
 		// 64-bit fast path with continuation
-		cx := new(big.Int).SetUint64(rapid.Uint64().Draw(t, "cx"))
-		cy := new(big.Int).SetUint64(rapid.Uint64().Draw(t, "cy") >> uint(rapid.IntRange(0, 60).Draw(t, "sh")))
+		cx := new(big.Int).SetUint64(u64(t, "cx"))
+		cy := new(big.Int).SetUint64(u64(t, "cy") >> uint(ir(t, 0, 60, "sh")))
 		if cy.Sign() == 0 {
 			cy = bi(1)
 		}
 		ey := genExp(t)
-		return DFin(genSign(t), cx, clampExp(ey+rapid.IntRange(0, 45).Draw(t, "gap"))), DFin(genSign(t), cy, ey)
+		return DFin(genSign(t), cx, clampExp(ey+ir(t, 0, 45, "gap"))), DFin(genSign(t), cy, ey)
 	}
 	// zero dividend
 	return genZero(t), genFiniteNZ(t)
